@@ -650,6 +650,9 @@ func runFrame(fr *frame) {
 		}
 		fr.panicking = true
 		fr.panic = recover()
+		if _, killed := fr.panic.(killThread); killed {
+			panic(fr.panic) // parked second thread being unwound at the end of a path: run no interpreted defers
+		}
 		if X != nil && X.PanicStack == "" {
 			var sb strings.Builder
 			for f := fr; f != nil; f = f.caller {
